@@ -34,6 +34,11 @@ VARIABLES mode,             \* "raw" | "wf" | "info"
           done
 vars == <<mode, row, done>>
 
+\* S: every operation specified here is a pure function of its arguments.  The library's run-time debug level is a
+\* process-wide switch (>= 1: a failed ASSERT exits the process; >= 3 and >= 5: trace statements); it is a DIMENSION of every
+\* case - each emitted case is executed at every level of DebugLevels and must yield the same result, buffers and return
+\* values, and never terminate the process - and not a parameter of any result.
+DebugLevels == <<0, 1, 3, 5>>
 IsAlphaCh(c) == c \in 65 .. 90 \/ c \in 97 .. 122
 IsDigitCh(c) == c \in 48 .. 57
 ClassOf(c)   == IF IsAlphaCh(c) THEN 1 ELSE IF IsDigitCh(c) THEN 2 ELSE 3
